@@ -232,9 +232,13 @@ void FsDropInService::processDropInAdd(const std::string& file) {
 
   OLOG << "Adding drop in config=" << file;
 
+  // Whatever was injected for this file earlier no longer reflects what is on
+  // disk: if the new content cannot be used, the old drop in must not stay
+  // active.
   std::ifstream dropin_file(drop_in_dir_ + '/' + file, std::ios::in);
   if (!dropin_file.is_open()) {
     OLOG << "Could not open drop in config=" << file;
+    scheduleDropInRemove(file);
     return;
   }
   std::stringstream buf;
@@ -246,17 +250,20 @@ void FsDropInService::processDropInAdd(const std::string& file) {
   } catch (const std::exception& e) {
     OLOG << "Caught: " << e.what();
     OLOG << "Failed to inject drop in config into engine";
+    scheduleDropInRemove(file);
     return;
   }
   if (!dropin_root) {
     OLOG << "Could not parse drop in config=" << file;
     OLOG << "Failed to inject drop in config into engine";
+    scheduleDropInRemove(file);
     return;
   }
 
   if (!scheduleDropInAdd(file, *dropin_root)) {
     OLOG << "Could not compile drop in config";
     OLOG << "Failed to inject drop in config into engine";
+    scheduleDropInRemove(file);
   }
 }
 
